@@ -154,3 +154,31 @@ func (v View) Done(src uint64, ccid []byte) bool {
 func (v View) Request(dst uint64, relayTx []byte) []byte {
 	return v.Get(chain.CrossChain, []byte(ccom.REQUEST), u64(dst), relayTx)
 }
+
+// AssetBinding returns the lock proxy and asset a (ripple-router) source chain has bound for
+// a destination chain (nil, nil when absent).
+func (v View) AssetBinding(src, dst uint64) (lock, asset []byte) {
+	raw := v.Get(chain.SideChainManager, []byte(side_chain_manager.ASSET_BIND), u64(src))
+	if raw == nil {
+		return nil, nil
+	}
+	ab := &side_chain_manager.AssetBind{AssetMap: map[uint64][]byte{}, LockProxyMap: map[uint64][]byte{}}
+	if ab.Deserialization(common.NewZeroCopySource(raw)) != nil {
+		return nil, nil
+	}
+	return ab.LockProxyMap[dst], ab.AssetMap[dst]
+}
+
+func (v View) HasAssetBinding(src, dst uint64) bool {
+	raw := v.Get(chain.SideChainManager, []byte(side_chain_manager.ASSET_BIND), u64(src))
+	if raw == nil {
+		return false
+	}
+	ab := &side_chain_manager.AssetBind{AssetMap: map[uint64][]byte{}, LockProxyMap: map[uint64][]byte{}}
+	if ab.Deserialization(common.NewZeroCopySource(raw)) != nil {
+		return false
+	}
+	_, a := ab.LockProxyMap[dst]
+	_, b := ab.AssetMap[dst]
+	return a && b
+}
